@@ -873,12 +873,13 @@ def k_pestle(rep):
     mods = common.mods()
     pm = mods['amr_kitchen.pestle.pestle']
     from symx import lv as L
-    kr = KResult('K-pestle-seek', ['pestle.increment_sum', 'utils.shape_from_header'],
+    kr = KResult('K-pestle-seek', ['pestle.increment_sum', 'pestle.increment_sum_masked', 'utils.shape_from_header'],
                  {'box extents': '1..2^20', 'nf': '1..4096', 'id_int, id_vol': 'symbolic component indices', 'offset': 'any FAB of a 2-FAB file'})
-    for use_vol in (False, True):
+    for masked in (False, True):
+      for use_vol in (False, True):
         for which in (0, 1):
-            def path(ctx, use_vol=use_vol, which=which):
-                kr.config = {'use_vol': use_vol, 'which': which}
+            def path(ctx, use_vol=use_vol, which=which, masked=masked):
+                kr.config = {'use_vol': use_vol, 'which': which, 'masked': masked}
                 kf, fabs = make_file(ctx, 2, 3)
                 kfs = KFS()
                 kfs.add('file', kf)
@@ -886,21 +887,33 @@ def k_pestle(rep):
                 ci = sym_comps(ctx, 'id_int', 1, nf)[0]
                 cv = sym_comps(ctx, 'id_vol', 1, nf)[0] if use_vol else None
                 fab = fabs[which]
+                mask = L.KMask(tuple(S(n) for n in fab.n))
                 with kpatched(mods, kfs), common.quiet():
-                    r = pm.increment_sum({'file': 'file', 'offset': S(fab.start), 'id_vol': cv, 'id_int': ci, 'dV': 0.125})
-                what = 'K-pestle-seek volfrac=%s FAB %d' % (use_vol, which)
+                    if masked:
+                        r = pm.increment_sum_masked({'file': 'file', 'offset': S(fab.start), 'id_vol': cv, 'id_int': ci, 'dV': 0.125, 'covering_mask': mask})
+                    else:
+                        r = pm.increment_sum({'file': 'file', 'offset': S(fab.start), 'id_vol': cv, 'id_int': ci, 'dV': 0.125})
+                what = 'K-pestle-seek%s volfrac=%s FAB %d' % (' masked' if masked else '', use_vol, which)
                 views = []
+                masks = []
 
                 def collect(e):
                     if isinstance(e, L.LV):
                         views.append(e)
                     elif isinstance(e, L.KExpr):
+                        if e.op == 'masked':
+                            masks.append(e.args[1])
+                            collect(e.args[0])
+                            return
                         for a in e.args:
                             collect(a)
                 collect(r)
                 kr.obligations += 1
                 if len(views) != (2 if use_vol else 1):
                     kr.fail(ctx, '%s: the result combines %d views' % (what, len(views)))
+                    return
+                if masked and (len(masks) != len(views) or any(m is not mask for m in masks)):
+                    kr.fail(ctx, '%s: %d of %d views go through the covering mask' % (what, len(masks), len(views)))
                     return
                 kr.discharged += 1
                 for v, comp in zip(views, [ci] + ([cv] if use_vol else [])):
